@@ -24,6 +24,7 @@ func errSitesOf(fi *eng.FuncInfo) []errSiteRec {
 		return nil
 	}
 	info := fi.Pkg.TypesInfo
+	eng.AlwaysErr = func(info *types.Info, call *ast.CallExpr) bool { return alwaysError(fi.Prog, info, call, 2) }
 	var named []types.Object
 	if fi.Decl.Type.Results != nil {
 		for _, f := range fi.Decl.Type.Results.List {
@@ -109,6 +110,7 @@ func sortedKeys[M ~map[string]V, V any](m M) []string {
 // errflowExceptions: confirmed, legitimate minority cases (one named construct + reason each).
 // Key: construct without ordinal suffix is NOT accepted — the full construct must match.
 var errflowExceptions = map[string]string{
+	"datastore.(*bstore).Put→github.com/sourcenetwork/corekv.(Reader).Has#1": "Has is an optimisation probe ('Has is cheaper than Set'): on its failure the block is written anyway and Set's error is what the caller gets",
 	// deferred best-effort cleanup of a read-only plan after the result/err has already been decided;
 	// the plan's Close touches no persistent state (iterators of the same txn, which is discarded/committed by the caller)
 	"db.(*collection).updateWithFilter→internal/planner.(planNode).Close#1":            "deferred Close of the selection plan: logged by design (source comment), result already decided; iterators die with the txn",
